@@ -23,6 +23,11 @@ inductive Cert
       (`PoolCurrentState` returns a registration and a retirement epoch): the pool still
       holds its deposit, so this is a re-registration — no deposit, in code and formula -/
   | pregRetiring (id : Nat)
+  /-- genesis key delegation and move-instantaneous-rewards certificates (Shelley..Babbage):
+      MIR moves `amt` from the reserves / the treasury to reward accounts or the other pot —
+      neither enters the transaction's balance, in the code or in the ledger formula -/
+  | genesis
+  | mir (amt : Nat)
   /-- Conway certificates carrying an amount (CIP-0094); `recorded` = deposit the ledger
       state holds (stake credential: not exposed by the LedgerState interface; DRep:
       `ls.DRepRegistration(cred).Deposit`) -/
